@@ -214,7 +214,8 @@ def run_case(case, klass=None, sample=None):
     from plumpy import futures as pf
     sc = sched.Sched()
     trace, actions = [], []
-    scripted.CURRENT.update(cfg=case, trace=trace, actions=actions)
+    side = []
+    scripted.CURRENT.update(cfg=case, trace=trace, actions=actions, side=side)
     orig_init = pf.CancellableAction.__init__
 
     def tracking_init(self, *a, **kw):
@@ -302,7 +303,7 @@ def run_case(case, klass=None, sample=None):
         for f in proc._sc_ext.values():
             if f.done() and not f.cancelled():
                 f.exception()
-        return {'trace': trace, 'final': final, 'samples': samples, 'proc': proc if sample == 'keep' else None, 'realized': realized}
+        return {'trace': trace, 'final': final, 'samples': samples, 'proc': proc if sample == 'keep' else None, 'realized': realized, 'side': side}
     finally:
         pf.CancellableAction.__init__ = orig_init
         sc.close()
